@@ -1761,6 +1761,9 @@ func (e *Env) execQuery(what string, q *Query) {
 			derived.Limit(0).Reverse()
 			derived.Expects(len(e.m.objs) + 7)
 			derived.One()
+			if base.Err() != nil {
+				e.failf("%s: Search(%s) was fine; after %s was derived from it and the DERIVED search was limited, reversed and given a wrong expectation, the base search reports %v", what, first, l.Conn, base.Err())
+			}
 		}
 		if bset, bcls := e.m.Eval(first); bcls == OK && base.Err() == nil {
 			bobjs, berr := base.Collect()
